@@ -132,7 +132,9 @@ def gen_cases(draw):
     boxes = [draw(box()) for _ in range(n)]
     prec = None
     if kind == "random-precision":
-        prec = [draw(st.sampled_from([1e-1, 1e-2, 1e-3, 0.5, 1.0, 1e-6])) for _ in range(n)]
+        # decimal and non-decimal grids (0.25, 0.2, 0.05 ...): the declared precision is a step, not a digit count
+        prec = [draw(st.sampled_from([1e-1, 1e-2, 1e-3, 0.5, 1.0, 1e-6, 0.25, 0.2, 0.05, 0.125, 2.0]))
+                for _ in range(n)]
     return {"kind": kind, "boxes": boxes, "prec": prec, "number": draw(st.integers(1, 12)),
             "k": draw(st.integers(2, 4)), "seed": draw(st.integers(0, 2 ** 31))}
 
@@ -213,9 +215,12 @@ def run_cases(draw):
     m = draw(st.integers(1, 3))
     boxes = [draw(box(min_width=1e-3)) for _ in range(n)]
     fails = sorted(draw(st.sets(st.integers(0, 40), max_size=4)))
+    prec = None
+    if draw(st.integers(0, 3)) == 0:
+        prec = [draw(st.sampled_from([0.25, 0.1, 0.2, 0.05, 1e-3])) for _ in range(n)]
     return {"alg": draw(st.sampled_from(["NSGAII", "EpsMOEA", "OMOPSO", "SMPSO", "PSOGA"])), "boxes": boxes, "m": m,
             "N": draw(st.integers(2, 8)), "G": draw(st.integers(1, 4)), "seed": draw(st.integers(0, 2 ** 31)),
-            "fails": fails if draw(st.booleans()) else []}
+            "fails": fails if draw(st.booleans()) else [], "prec": prec}
 
 
 def algorithm_class(name):
@@ -245,6 +250,10 @@ def check_run(case):
         x = [(float(v) - b[0]) / (b[1] - b[0]) for v, b in zip(ind.vector, boxes)]
         return [sum((xi - (j + 1) / (m + 1.0)) ** 2 for xi in x) + 0.1 * j * x[0] for j in range(m)]
     ps = [{"name": "x%d" % i, "bounds": list(b)} for i, b in enumerate(boxes)]
+    prec = case.get("prec")
+    if prec:
+        for p_, q_ in zip(ps, prec):
+            p_["precision"] = q_
     cs = [{"name": "f%d" % j, "criteria": "minimize"} for j in range(m)]
     prob = make_problem(ps, cs, ev)
     seed_all(case["seed"])
@@ -261,8 +270,10 @@ def check_run(case):
     for v in seen:
         if len(v) != n:
             raise Violation("runs", "%s:shape" % case["alg"], "objective received %r for %d parameters" % (v, n))
-        for x, (lb, ub) in zip(v, boxes):
+        for j_, (x, (lb, ub)) in enumerate(zip(v, boxes)):
             tol = 1e-12 + 4 * ulp(max(abs(lb), abs(ub)))
+            if prec:
+                tol = prec[j_] / 2 + 4 * ulp(max(abs(lb), abs(ub), prec[j_]))
             xf = float(x)
             if isinstance(x, complex) or xf != xf or not (lb - tol <= xf <= ub + tol):
                 raise Violation("runs", "%s:out-of-box" % case["alg"], "%s N=%d G=%d evaluated %r outside %r" % (
